@@ -16,11 +16,12 @@ def absPlace (ms : Nat) (a : Msg) (n : Nat) (v : Bytes) : Nat × Msg :=
   then ((Spec.encOpt (n - prevNum n a.opts) v).length, { a with opts := Spec.insertStable n v a.opts })
   else (0, a)
 
-/-- coap_add_option_internal -/
+/-- coap_add_option_internal (after the fix: a refused option takes its implicit Hop-Limit with it) -/
 def absAdd (ms : Nat) (a : Msg) (n : Nat) (v : Bytes) : Nat × Msg :=
   if v.length > 65804 then (0, a) else
   if n = lastNum a.opts ∧ ¬ repeatable n then (0, a) else
-  absPlace ms (if Spec.hopApplies a.code n a.opts then (absPlace ms a 16 [16]).2 else a) n v
+  if (absPlace ms (if Spec.hopApplies a.code n a.opts then (absPlace ms a 16 [16]).2 else a) n v).1 = 0 then (0, a)
+  else absPlace ms (if Spec.hopApplies a.code n a.opts then (absPlace ms a 16 [16]).2 else a) n v
 
 /-- coap_insert_option -/
 def absInsert (ms : Nat) (a : Msg) (n : Nat) (v : Bytes) : Nat × Msg :=
@@ -62,11 +63,50 @@ theorem lastNum_hasOpt (os : List (Nat × Bytes)) (h : lastNum os ≠ 0) : Spec.
 theorem ins3_eq (pdu : Pdu) (n : Nat) (v : Bytes) :
     ins3 pdu n v = if v.length > 65804 then R.ok (0, pdu) else if n ≥ pdu.maxOpt then add2 pdu n v else insertBody pdu n v := rfl
 
+theorem R_bind_ret {α : Type} (x : R α) : (x >>= fun r => R.ok r) = x := by cases x <;> rfl
+
+theorem absPlace_zero (ms : Nat) (a : Msg) (n : Nat) (v : Bytes) (h : (absPlace ms a n v).1 = 0) :
+    (absPlace ms a n v).2 = a := by
+  unfold absPlace at h ⊢
+  split
+  · rename_i hf
+    rw [if_pos hf] at h
+    have := encOpt_length (n - prevNum n a.opts) v
+    simp only at h
+    omega
+  · rfl
+
+theorem absPlace_nonzero (ms : Nat) (a : Msg) (n : Nat) (v : Bytes) (h : (absPlace ms a n v).1 ≠ 0) :
+    (absPlace ms a n v).2 = { a with opts := Spec.insertStable n v a.opts } := by
+  unfold absPlace at h ⊢
+  split
+  · rfl
+  · rename_i hf
+    rw [if_neg hf] at h
+    exact absurd rfl h
+
+theorem removeFirst_insertStable (n : Nat) (v : Bytes) (os : List (Nat × Bytes)) (h : Spec.hasOpt n os = false) :
+    Spec.removeFirst n (Spec.insertStable n v os) = os := by
+  induction os with
+  | nil => simp [Spec.insertStable, Spec.removeFirst]
+  | cons o os ih =>
+    rw [hasOpt_cons] at h
+    simp at h
+    by_cases ho : o.1 ≤ n
+    · simp [Spec.insertStable, ho, Spec.removeFirst, h.1, ih h.2]
+    · simp [Spec.insertStable, ho, Spec.removeFirst]
+
+theorem hasOpt_insertStable (n : Nat) (v : Bytes) (os : List (Nat × Bytes)) :
+    Spec.hasOpt n (Spec.insertStable n v os) = true := by
+  unfold Spec.hasOpt
+  rw [List.any_eq_true]
+  exact ⟨(n, v), (mem_insertStable n v os (n, v)).mpr (Or.inl rfl), by simp⟩
+
 theorem add2_hop (pdu : Pdu) (h : pdu.maxOpt < 16) : add2 pdu 16 [16] = appendOption pdu 16 [16] := by
   have h1 : ¬ (16 = pdu.maxOpt ∧ ¬ repeatable 16 = true) := by omega
   have h2 : ¬ (16 < pdu.maxOpt) := by omega
   simp [add2, addInternalK, h2]
-  intro h'; omega
+  rw [R_bind_ret, if_neg (by omega)]
 
 theorem Shape_insert (a : Msg) (n : Nat) (v : Bytes) (hs : Shape a) (hn : n ≤ 65535) (hv : v.length ≤ 65804) :
     Shape { a with opts := Spec.insertStable n v a.opts } := by
@@ -119,10 +159,20 @@ theorem absPlace_fields (ms : Nat) (a : Msg) (n : Nat) (v : Bytes) :
   unfold absPlace
   split <;> exact ⟨rfl, rfl, rfl, rfl, rfl⟩
 
+theorem addInternalK_eq (ins : Pdu → Nat → Bytes → R (Nat × Pdu)) (pdu : Pdu) (n : Nat) (v : Bytes) :
+    addInternalK ins pdu n v =
+      if v.length > 65804 then R.ok (0, pdu) else
+      if n = pdu.maxOpt ∧ ¬ repeatable n then R.ok (0, pdu) else
+      (if (pdu.code ≠ 0 ∧ pdu.code < 32) ∧ (n = 35 ∨ n = 39) ∧ ¬ hasOption pdu 16
+        then (ins pdu 16 [16] >>= fun r => R.ok (r.2, decide (r.1 ≠ 0))) else R.ok (pdu, false) : R (Pdu × Bool)) >>= fun ph =>
+      (if n < ph.1.maxOpt then ins ph.1 n v else appendOption ph.1 n v) >>= fun r =>
+      if r.1 = 0 ∧ ph.2 = true then (removeOption r.2 16 >>= fun r2 => R.ok (0, r2.2)) else R.ok r := rfl
+
 /-- `coap_add_option_internal` on the representing PDU -/
 theorem addOptionInternal_conc (ms : Nat) (a : Msg) (n : Nat) (v : Bytes) (hs : Shape a) (hn : n ≤ 65535) :
     addOptionInternal (conc ms a) n v = R.ok ((absAdd ms a n v).1, conc ms (absAdd ms a n v).2) := by
-  unfold absAdd addOptionInternal addInternalK
+  unfold absAdd addOptionInternal
+  rw [addInternalK_eq]
   by_cases hv : v.length > 65804
   · simp only [hv, if_true]
   · simp only [hv, if_false]
@@ -131,30 +181,72 @@ theorem addOptionInternal_conc (ms : Nat) (a : Msg) (n : Nat) (v : Bytes) (hs : 
     by_cases hrep : n = lastNum a.opts ∧ ¬ repeatable n = true
     · rw [if_pos hrep, if_pos hrep]
     · rw [if_neg hrep, if_neg hrep]
-      -- the PDU after the optional Hop-Limit insertion
+      -- the PDU after the optional Hop-Limit insertion, and `hop_limit_added`
       obtain ⟨a1, ha1⟩ : ∃ a1, a1 = (if Spec.hopApplies a.code n a.opts = true then (absPlace ms a 16 [16]).2 else a) := ⟨_, rfl⟩
+      obtain ⟨added, hadded⟩ : ∃ b : Bool, b = (if Spec.hopApplies a.code n a.opts = true
+          then decide ((absPlace ms a 16 [16]).1 ≠ 0) else false) := ⟨_, rfl⟩
       have hpdu : (if ((conc ms a).code ≠ 0 ∧ (conc ms a).code < 32) ∧ (n = 35 ∨ n = 39) ∧ ¬ hasOption (conc ms a) 16 = true
-          then (ins3 (conc ms a) 16 [16] >>= fun r => R.ok r.2) else R.ok (conc ms a) : R Pdu) = R.ok (conc ms a1) := by
+          then (ins3 (conc ms a) 16 [16] >>= fun r => R.ok (r.2, decide (r.1 ≠ 0))) else R.ok (conc ms a, false) : R (Pdu × Bool)) =
+            R.ok (conc ms a1, added) := by
         by_cases hhop : Spec.hopApplies a.code n a.opts = true
         · rw [if_pos ((hopCond_conc ms a n hs).mpr hhop)]
           have h16 : Spec.hasOpt 16 a.opts = false := by
             simp [Spec.hopApplies] at hhop; exact hhop.2
-          rw [ins3_hop ms a hs h16, ha1, if_pos hhop]; rfl
-        · rw [if_neg (fun h => hhop ((hopCond_conc ms a n hs).mp h)), ha1, if_neg hhop]
+          rw [ins3_hop ms a hs h16, ha1, hadded, if_pos hhop, if_pos hhop]; rfl
+        · rw [if_neg (fun h => hhop ((hopCond_conc ms a n hs).mp h)), ha1, hadded, if_neg hhop, if_neg hhop]
+      -- the abstract facts about the two cases of `hop_limit_added`
+      have hfacts : (added = true → Spec.hasOpt 16 a.opts = false ∧
+            a1 = { a with opts := Spec.insertStable 16 [16] a.opts }) ∧ (added = false → a1 = a) := by
+        by_cases hhop : Spec.hopApplies a.code n a.opts = true
+        · rw [hadded, ha1, if_pos hhop, if_pos hhop]
+          have h16 : Spec.hasOpt 16 a.opts = false := by
+            simp [Spec.hopApplies] at hhop; exact hhop.2
+          constructor
+          · intro h
+            exact ⟨h16, absPlace_nonzero ms a 16 [16] (by simpa using h)⟩
+          · intro h
+            exact absPlace_zero ms a 16 [16] (by simpa using h)
+        · rw [hadded, ha1, if_neg hhop, if_neg hhop]
+          exact ⟨(fun h => by cases h), fun _ => rfl⟩
       have hs1 : Shape a1 := by
         rw [ha1]; split
         · exact absPlace_shape ms a 16 [16] hs (by omega) (by simp)
         · exact hs
       rw [← ha1]
-      show ((if _ then _ else _ : R Pdu) >>= _) = _
       rw [hpdu, R.bind_ok]
+      simp only []
       have hmo1 : (conc ms a1).maxOpt = lastNum a1.opts := rfl
       rw [hmo1]
-      by_cases hlt : n < lastNum a1.opts
-      · rw [if_pos hlt, ins3_eq, if_neg hv, hmo1, if_neg (by omega)]
-        exact insertBody_total ms a1 n v hs1 hlt (by omega)
-      · rw [if_neg hlt]
-        exact appendOption_total ms a1 n v hs1 (by omega) hn (by omega)
+      have hplace : (if n < lastNum a1.opts then ins3 (conc ms a1) n v else appendOption (conc ms a1) n v) =
+          R.ok ((absPlace ms a1 n v).1, conc ms (absPlace ms a1 n v).2) := by
+        by_cases hlt : n < lastNum a1.opts
+        · rw [if_pos hlt, ins3_eq, if_neg hv, hmo1, if_neg (by omega)]
+          exact insertBody_total ms a1 n v hs1 hlt (by omega)
+        · rw [if_neg hlt]
+          exact appendOption_total ms a1 n v hs1 (by omega) hn (by omega)
+      rw [hplace, R.bind_ok]
+      simp only []
+      by_cases hz : (absPlace ms a1 n v).1 = 0
+      · rw [if_pos hz]
+        have h2 := absPlace_zero ms a1 n v hz
+        cases hb : added with
+        | true =>
+          obtain ⟨h16, he⟩ := hfacts.1 hb
+          have hc : (absPlace ms a1 n v).1 = 0 ∧ true = true := ⟨hz, rfl⟩
+          rw [if_pos hc, h2, removeOption_conc ms a1 16 hs1]
+          have hh : Spec.hasOpt 16 a1.opts = true := by rw [he]; exact hasOpt_insertStable 16 [16] a.opts
+          rw [if_pos hh, R.bind_ok]
+          have : ({ a1 with opts := Spec.removeFirst 16 a1.opts } : Msg) = a := by
+            rw [he]
+            show ({ a with opts := Spec.removeFirst 16 (Spec.insertStable 16 [16] a.opts) } : Msg) = a
+            rw [removeFirst_insertStable 16 [16] a.opts h16]
+          simp only [this]
+        | false =>
+          have hc : ¬ ((absPlace ms a1 n v).1 = 0 ∧ false = true) := fun h => by cases h.2
+          rw [if_neg hc, h2, hz, hfacts.2 hb]
+      · rw [if_neg hz]
+        have hc : ¬ ((absPlace ms a1 n v).1 = 0 ∧ added = true) := fun h => hz h.1
+        rw [if_neg hc]
 
 /-- `coap_insert_option` on the representing PDU -/
 theorem insertOption_conc (ms : Nat) (a : Msg) (n : Nat) (v : Bytes) (hs : Shape a) (hn : n ≤ 65535) :
@@ -448,12 +540,17 @@ theorem absAdd_shape (ms : Nat) (a : Msg) (n : Nat) (v : Bytes) (hs : Shape a) (
   by_cases hv : v.length > 65804
   · rw [if_pos hv]; exact hs
   · rw [if_neg hv]
-    split
-    · exact hs
-    · apply absPlace_shape _ _ _ _ _ hn (by omega)
-      split
-      · exact absPlace_shape ms a 16 [16] hs (by omega) (by simp)
-      · exact hs
+    by_cases hrep : n = lastNum a.opts ∧ ¬ repeatable n = true
+    · rw [if_pos hrep]; exact hs
+    · rw [if_neg hrep]
+      have hs1 : Shape (if Spec.hopApplies a.code n a.opts = true then (absPlace ms a 16 [16]).2 else a) := by
+        split
+        · exact absPlace_shape ms a 16 [16] hs (by omega) (by simp)
+        · exact hs
+      by_cases hz : (absPlace ms (if Spec.hopApplies a.code n a.opts = true then (absPlace ms a 16 [16]).2 else a) n v).1 = 0
+      · rw [if_pos hz]; exact hs
+      · rw [if_neg hz]
+        exact absPlace_shape _ _ _ _ hs1 hn (by omega)
 
 theorem absInsert_shape (ms : Nat) (a : Msg) (n : Nat) (v : Bytes) (hs : Shape a) (hn : n ≤ 65535) :
     Shape (absInsert ms a n v).2 := by
